@@ -381,14 +381,6 @@ def classify(mismatches, byid):
                 if keys.get(i) is None or bi == "0":
                     keys[i] = ("spread-tuple-fields-get-no-flowing-value" if bi == "1"
                                else "inherit-spread-union-drops-name")
-    # what is left: an ACCEPTED program that stops with a stuck error is a violation of type soundness
-    # (C01); several root causes above produce them (a value typed without nil reaches a field access,
-    # a spread or a builtin), and they are triaged under C01 rather than one by one here
-    for m in pending:
-        if keys.get(m["id"]) is None and m["obs"].get("t") == "error" and \
-                m["obs"].get("e") in ("TypeMismatch", "FieldAccessInvalid") and \
-                len(m["exp"]) == 1 and m["exp"][0].get("t") == "value":
-            keys[m["id"]] = "stuck-error-in-accepted-program"
     return keys
 
 
@@ -455,7 +447,7 @@ def check_programs(check, programs, label, stats):
 def run(prop, tier):
     if prop != "C02":
         raise common.ToolError("engines/seqlang.py decides C02 (other properties reuse its parts)")
-    check = common.Check(prop, tier, level="conformance")
+    check = common.Check(prop, tier)
     check.cov["rule"] = RULE
     seed = common.seed()
     thorough = tier == "thorough"
